@@ -10,6 +10,9 @@ Driver for C15.  Request
     atom = {"blocks":bool,"key":n,"vop":null|[op,ver,rev],"slot":null|n}
 
 Reply {"ok":bool, "problems":[…], "final":[ids]|null, "merged":[ids]|null, "match":[[ids of pkgs matched by atoms[i]],…]}.
+
+    {"cmd":"c15.reorder", "clauses":[ [[blocks,pref],…], … ]}      one pair of flags per alternative, in clause order
+Reply [[positions of the alternatives in the order the search tries them], …].
 -/
 namespace Pkgcore.Driver.C15
 open Lean Pkgcore.Proto Pkgcore.C15 Pkgcore.C01
@@ -74,8 +77,23 @@ def problemJson : Problem → Json
   | .slot p q => .arr #[.str "slot", toJson p, toJson q]
   | .clause p cls cl => .arr #[.str "clause", toJson p, toJson cls, toJson cl]
 
+def parseFlags (j : Json) : Option (Bool × Bool) :=
+  match j with
+  | .arr #[.bool b, .bool p] => some (b, p)
+  | _ => none
+
+def reorderIdx (fl : List (Bool × Bool)) : List Nat :=
+  (reorderClause (fun x : Nat × Bool × Bool => x.2.1) (fun x => x.2.2) ((List.range fl.length).zip fl)).map (·.1)
+
 def handle : Handler := fun cmd j =>
   match cmd with
+  | "c15.reorder" =>
+    let r : Option Json := do
+      let cls ← (← getArr j "clauses").mapM fun c => match c with
+        | .arr fs => fs.toList.mapM parseFlags
+        | _ => none
+      pure (.arr (cls.map fun fl => toJson (reorderIdx fl)).toArray)
+    some (r.getD (Json.str "bad-op"))
   | "c15.check" =>
     let r : Option Json := do
       let U ← (← getArr j "pkgs").mapM parsePkg
